@@ -301,6 +301,13 @@ impl<T: Copy + Number + std::fmt::Debug> Sparse<T> {
 }
 
 impl Sparse<f64> {
+    // The stopping tests only see the residual: a component of x that the system leaves undetermined
+    // (e.g. a zero column) can overflow to inf/NaN while the residual converges. Success is only 
+    // reported for a finite solution vector.
+    fn converged( x: &Vector<f64>, iter: usize, resid: f64 ) -> Result<usize, f64> {
+        if x.vec.iter().all( |v| v.is_finite() ) { Ok( iter ) } else { Err( resid ) }
+    }
+
     /// Solve the system of equations Ax=b using the biconjugate gradient method 
     /// with a specified maximum number of iterations and tolerance.
     /// itol = 1: relative residual norm
@@ -364,7 +371,7 @@ impl Sparse<f64> {
             rho_2 = rho_1;
             if itol == 1 { err = r.norm_2() / bnrm; }
             if itol == 2 { err = z.norm_2() / bnrm; }
-            if err <= tol { return Ok( iter ); }
+            if err <= tol { return Self::converged( x, iter, err ); }
         }
         Err(err)
     }
@@ -419,7 +426,7 @@ impl Sparse<f64> {
             resid = s.norm_2() / normb;
             if resid <= tol {
                 *x += phat.clone() * alpha;
-                return Ok( i );
+                return Self::converged( x, i, resid );
             }
             //shat = s; //could have preconditioner here shat = M.solve(s);
             self.identity_preconditioner( &s, &mut shat );
@@ -430,7 +437,7 @@ impl Sparse<f64> {
             r = s - t * omega;
             rho_2 = rho_1;
             resid = r.norm_2() / normb;
-            if resid < tol { return Ok( i ); }
+            if resid < tol { return Self::converged( x, i, resid ); }
             if omega == 0.0 { return Err( resid ); }
         }
         Err(resid)
@@ -481,7 +488,7 @@ impl Sparse<f64> {
             *x += p.clone() * alpha;
             r -= q.clone() * alpha;
             resid = r.norm_2() / normb;
-            if resid <= tol { return Ok( i ); }
+            if resid <= tol { return Self::converged( x, i, resid ); }
             rho_1 = rho;
         }
         Err(resid)
@@ -610,7 +617,7 @@ impl Sparse<f64> {
             r -= s.clone();
 
             resid = r.norm_2() / normb;
-            if resid <= tol { return Ok( i ); } 
+            if resid <= tol { return Self::converged( x, i, resid ); } 
         }
         Err(resid)
     }
